@@ -31,6 +31,8 @@ func main() {
 	replay := flag.String("replay", "", "JSON file with {\"harness\":..., \"vars\":{...}}: run concretely in the engine")
 	keepGoing := flag.Bool("keep-going", false, "continue after a violation")
 	dump := flag.String("dump", "", "dump queries into this directory")
+	tier := flag.Int("tier", 0, "0 quick, 1 thorough")
+	known := flag.String("known", "", "comma-separated ids of listed known findings")
 	maxSteps := flag.Int64("max-steps", 0, "instruction budget per path")
 	flag.Parse()
 
@@ -69,7 +71,12 @@ func main() {
 		}
 	}
 	opts := interp.Options{Workers: *workers, MaxPaths: *maxPaths, Unwind: *unwind, FeasMs: *feasMs, AssertMs: *assertMs,
-		Solver: *solver, Solver2: *solver2, Trace: *trace, KeepGoing: *keepGoing, DumpDir: *dump, MaxSteps: *maxSteps}
+		Solver: *solver, Solver2: *solver2, Trace: *trace, KeepGoing: *keepGoing, DumpDir: *dump, MaxSteps: *maxSteps, Tier: *tier, Known: map[string]bool{}}
+	for _, k := range strings.Split(*known, ",") {
+		if k != "" {
+			opts.Known[k] = true
+		}
+	}
 	if *replay != "" {
 		b, err := os.ReadFile(*replay)
 		if err != nil {
